@@ -27,9 +27,16 @@ class SpartanProtocol(BaseGopherProtocol):
         except UnicodeEncodeError:
             return False
 
-        # Three non-empty parts, with the third part being an integer >= 0.
+        # Three non-empty parts: a host, an absolute path and an integer >= 0.
+        # (Without the test for the path, a plain Gopher selector such as
+        # "/Annual Report 2024" would be taken for a Spartan request.)
         parts = self.request.strip().split(" ")
-        return len(parts) == 3 and all(parts) and parts[2].isdigit()
+        return (
+            len(parts) == 3
+            and all(parts)
+            and parts[1].startswith("/")
+            and parts[2].isdigit()
+        )
 
     def handle(self):
         host, path, content_length = self.request.strip().split(" ")
